@@ -4,7 +4,11 @@ C12 — topological sort: correct across scopes, stable, deterministic, atomic.
 Part A: theorems about the reverse Kahn loop of `Graph.sort` over an ARBITRARY finite
 predecessor relation (`C12_kahn_*`).  Part B: the same instantiated with the predecessor lists
 `Graph.sort` builds from a graph tree (`C12_perm`, `C12_respects`, `C12_cycle_iff`,
-`C12_cycle_no_change`, `C12_fixpoint_graph`, `C12_fixpoint`, `C12_deterministic`).
+`C12_cycle_no_change`, `C12_order_independent`, `C12_fixpoint_graph`, `C12_fixpoint`,
+`C12_deterministic`) and the pass over main graph + functions (`C12_pass_atomic`, `C12_pass_result`).
+Not theorems (by construction of the model, hence not listed): the result depends only on the
+current tree (the model is a function of it; the stateful correspondence checks the code), and
+the `sharedGraph` branch of `sortModel` (a derived summary, differential only).
 Helper developments: `Lemmas/SortKahn.lean` (the loop), `Lemmas/SortTree.lean` (the tree),
 `Lemmas/SortPos.lean` (positions vs ids), `Lemmas/SortStable.lean` (stability; defines `WellScoped`,
 `OrderedG`), `Lemmas/SortAcyclic.lean` (ordered => acyclic), `Lemmas/SortRename.lean` (renaming), `Lemmas/SortLifted.lean` (flat cycle => per-graph cycle), `Lemmas/SortLinked.lean` (C11 container).
@@ -13,6 +17,7 @@ import IrVerif.Lemmas.SortAcyclic
 import IrVerif.Lemmas.SortRename
 import IrVerif.Lemmas.SortLifted
 import IrVerif.Lemmas.SortLinked
+import IrVerif.Lemmas.SortEffect
 import Mathlib.Data.List.Forall2
 
 namespace IrVerif.Sort
@@ -259,24 +264,110 @@ theorem C12_cycle_iff_lifted (g : MGraph) (hwf : WF g) (hws : WellScoped g) :
   · rintro ⟨h, hh, x, hx⟩
     exact C12_cycle_lifted g hwf h hh x hx
 
-/-- **C12_cycle_no_change**: when the sort raises, the observable node order of every graph is the
-    one before the call.  (By construction of the model: the cycle test precedes all re-linking,
-    as in the code; that the code really behaves so is checked by the correspondence and the
-    oracle on every run.) -/
-theorem C12_cycle_no_change (g : MGraph) (h : (sortEffect g).1 = true) :
-    (sortEffect g).2 = graphsOf g := by
-  unfold sortEffect at *
-  split at h <;> simp_all
+/-- **C12_cycle_no_change**: steps 4-5 are modelled as the sequence of effects the code performs
+    (`sortTraceIn order`: the cycle test, then one `graph.extend` per graph, the graphs visited in
+    an arbitrary `order` — set/dict iteration).  Whenever running these effects on the node
+    containers ends in a raise, the raise was the first and only effect — no re-link precedes
+    it — and every container is exactly as before the call. -/
+theorem C12_cycle_no_change (g : MGraph) (order : List (Nat × List Nat))
+    (h : (runEffs (graphsOf g) (sortTraceIn order g)).1 = true) :
+    sortTraceIn order g = [Eff.raise] ∧
+    (runEffs (graphsOf g) (sortTraceIn order g)).2 = graphsOf g := by
+  rcases sortTraceIn_cases order g with ⟨_, ht⟩ | ⟨_, ht⟩
+  · exact ⟨ht, by rw [ht]; rfl⟩
+  · rw [ht] at h
+    rw [runEffs_no_raise order _ (fun p => ⟨_, _, rfl⟩)] at h
+    exact absurd h (by simp)
 
-/-- **C12_shared_raises**: a tree in which a Graph object is reachable twice (the universe lists a
-    node twice) makes the sort raise and leave every order as it was.  By construction of the
-    model, whose doc comment (`sortModel`) derives this from the code: list `nodes` with duplicates
-    vs dictionaries keyed by node, every node popped at most once, so the length test fails.
-    The correspondence compares it with the real code on generated shared-graph trees. -/
-theorem C12_shared_raises (g : MGraph) (h : ¬ ((nodesOf g).map Ent.id).Nodup) :
-    sortEffect g = (true, graphsOf g) := by
-  have hs : sharedGraph (nodesOf g) = true := by simp [sharedGraph, h]
-  simp [sortEffect, sortModel, hs]
+/-- **C12_order_independent** (the nondeterminism the code does have): `sorted_nodes_by_graph` is
+    a dict built from a *set* of graphs, so the graphs are re-linked in an arbitrary order.  For
+    every arrangement `order` of the graphs of the tree the observable outcome is the same:
+    raised and nothing changed, or exactly the result of `sortModel` (re-links of different
+    containers commute). -/
+theorem C12_order_independent (g : MGraph) (hwf : WF g) (order : List (Nat × List Nat))
+    (hp : order.Perm (graphsOf g)) :
+    runEffs (graphsOf g) (sortTraceIn order g) = sortEffect g ∧
+    sortEffect g = (match sortModel g with
+      | none => (true, graphsOf g)
+      | some r => (false, r)) := by
+  rw [runEffs_sortTraceIn g hwf.gids order hp, sortEffect_eq g hwf.gids]
+  exact ⟨rfl, rfl⟩
+
+/-- after one `sort`, the containers hold graph by graph an arrangement of what they held -/
+theorem sortEffect_rearranged (g : MGraph) (hwf : WF g) :
+    Rearranged (graphsOf g) (sortEffect g).2 := by
+  have hnd : ∀ gc ∈ graphsOf g, gc.2.Nodup := by
+    intro gc hgc
+    obtain ⟨h, hh, rfl⟩ := List.mem_map.1 hgc
+    exact graph_ids_nodup hwf.ids hh
+  rw [sortEffect_eq g hwf.gids]
+  cases hs : sortModel g with
+  | none =>
+    apply forall₂_and_left _ hnd
+    rw [List.forall₂_same]
+    intro x _; exact ⟨rfl, List.Perm.refl _⟩
+  | some r => exact forall₂_and_left (C12_perm g hwf r hs) hnd
+
+theorem passSorts_rearranged (gs : List MGraph) (hwf : ∀ g ∈ gs, WF g) :
+    List.Forall₂ Rearranged (gs.map graphsOf) (passSorts gs).2 := by
+  induction gs with
+  | nil => exact List.Forall₂.nil
+  | cons g rest ih =>
+    have h1 := sortEffect_rearranged g (hwf g (by simp))
+    have hrest : ∀ g ∈ rest, WF g := fun g hg => hwf g (List.mem_cons_of_mem _ hg)
+    simp only [passSorts, List.map_cons]
+    split
+    · refine List.Forall₂.cons h1 ?_
+      rw [List.forall₂_same]
+      intro x hx
+      obtain ⟨g', hg', rfl⟩ := List.mem_map.1 hx
+      have hnd : ∀ gc ∈ graphsOf g', gc.2.Nodup := by
+        intro gc hgc
+        obtain ⟨h, hh, rfl⟩ := List.mem_map.1 hgc
+        exact graph_ids_nodup (hrest g' hg').ids hh
+      apply forall₂_and_left _ hnd
+      rw [List.forall₂_same]
+      intro y _; exact ⟨rfl, List.Perm.refl _⟩
+    · exact List.Forall₂.cons h1 (ih hrest)
+
+/-- **C12_pass_atomic**: `TopologicalSortPass` (model of `call` with fix D201: sort the main graph,
+    then every function, and on `ValueError` re-extend every recorded graph in its recorded order
+    before re-raising) over `[main] ++ functions`: when the pass raises, the node order of every
+    graph of the model — main graph, functions, all nested graphs, also those that had already
+    been sorted successfully — is exactly what it was before the call. -/
+theorem C12_pass_atomic (gs : List MGraph) (hwf : ∀ g ∈ gs, WF g)
+    (h : (passEffect gs).1 = true) : (passEffect gs).2 = gs.map graphsOf := by
+  unfold passEffect at *
+  by_cases hr : (passSorts gs).1 = true
+  · simp only [hr, if_true]
+    exact passRestore_eq (passSorts_rearranged gs hwf)
+  · simp only [hr] at h
+    simp at h
+    exact absurd h hr
+
+/-- **C12_pass_result**: the pass raises exactly when the sort of one of its graph-likes raises;
+    otherwise every graph-like ends up as its own `sort` leaves it. -/
+theorem C12_pass_result (gs : List MGraph) :
+    (passEffect gs).1 = gs.any (fun g => (sortEffect g).1) ∧
+    ((passEffect gs).1 = false → (passEffect gs).2 = gs.map (fun g => (sortEffect g).2)) := by
+  have key : (passSorts gs).1 = gs.any (fun g => (sortEffect g).1) ∧
+      ((passSorts gs).1 = false → (passSorts gs).2 = gs.map (fun g => (sortEffect g).2)) := by
+    induction gs with
+    | nil => simp [passSorts]
+    | cons g rest ih =>
+      simp only [passSorts, List.any_cons, List.map_cons]
+      by_cases he : (sortEffect g).1 = true
+      · simp [he]
+      · have he' : (sortEffect g).1 = false := by simpa using he
+        simp only [he', Bool.false_or, Bool.false_eq_true, if_false]
+        exact ⟨ih.1, fun h => by rw [ih.2 h]⟩
+  unfold passEffect
+  by_cases hr : (passSorts gs).1 = true
+  · simp only [hr, if_true]
+    exact ⟨by rw [← key.1, hr], by simp⟩
+  · have hr' : (passSorts gs).1 = false := by simpa using hr
+    simp only [hr', Bool.false_eq_true, if_false]
+    exact ⟨by rw [← key.1, hr'], fun _ => key.2 hr'⟩
 
 /-- **C12_fixpoint_graph** (per graph, stronger than the property asks): in a well-scoped tree
     whose sort succeeds, every graph that is already in order (`OrderedG`: each node after the
@@ -323,16 +414,6 @@ theorem C12_deterministic (σ τ : Nat → Nat) (hσ : Function.Injective σ)
     (hτ : Function.Injective τ) (g : MGraph) :
     sortModel (renG σ τ g) = (sortModel g).map (renOrders σ τ) :=
   sortModel_ren hσ hτ g
-
-/-- **C12_stateless**: the outcome of a sort depends only on the tree as it is when `sort` is
-    called, not on the history that produced it (earlier sorts, edits, flags): two histories that
-    end in the same tree give the same raise-or-not and the same orders.  Immediate in the model —
-    `sortEffect` takes the current tree as its only argument; that the code has no such hidden
-    state is what the stateful correspondence checks (build, sort, edit the same objects, sort
-    again, each sort compared with the model on the structure of that moment). -/
-theorem C12_stateless {H : Type} (treeAfter : H → MGraph) (h1 h2 : H)
-    (e : treeAfter h1 = treeAfter h2) :
-    sortEffect (treeAfter h1) = sortEffect (treeAfter h2) := by rw [e]
 
 /-! ## non-vacuity -/
 
@@ -382,6 +463,11 @@ def ex5 : MGraph :=
                       (1, [MNode.mk 1 [] [], MNode.mk 2 [some 1] []])]])
 example : ¬ ((nodesOf ex5).map Ent.id).Nodup := by decide
 example : sortEffect ex5 = (true, [(0, [0]), (1, [1, 2]), (1, [1, 2])]) := by decide
+example : passEffect [ex4, ex3, ex2] = (true, [graphsOf ex4, graphsOf ex3, graphsOf ex2]) := by decide
+example : (passSorts [ex4, ex3, ex2]).2 ≠ [graphsOf ex4, graphsOf ex3, graphsOf ex2] := by decide
+example : passEffect [ex4, ex3] = (false, [[(0, [0, 1, 3]), (1, [2, 4])], graphsOf ex3]) := by decide
+example : (graphsOf ex1).reverse.Perm (graphsOf ex1) := List.reverse_perm _
+example : runEffs (graphsOf ex1) (sortTraceIn (graphsOf ex1).reverse ex1) = sortEffect ex1 := by decide
 example : Function.Injective (fun n : Nat => n + 7) := fun a b h => by simpa using h
 
 end IrVerif.Sort
